@@ -5,7 +5,12 @@ For each /verif/seeded/<name>/ (patch.diff + meta.json): git apply to /repo,
 run the check of the property it breaks (quick tier, optionally fewer runs),
 record whether it raised a VIOLATION, and ALWAYS restore /repo afterwards
 (git checkout -- . ; the patches only modify tracked files).
-usage: run_seeded.py [--runs N] [names...]
+usage: run_seeded.py [--runs N] [--scratch] [--all-checks] [names...]
+
+--scratch: leave /repo alone; apply each patch in a temporary git worktree of
+/repo's HEAD under /tmp (removed afterwards), point the checks at it with
+VERIF_REPO and send their replay/evidence output to a scratch directory
+(VERIF_OUT).  Several such runs can go on side by side.
 """
 import argparse
 import glob
@@ -19,12 +24,26 @@ ap = argparse.ArgumentParser()
 ap.add_argument('--runs', type=int)
 ap.add_argument('--all-checks', action='store_true',
                 help='run every check, not only the one for the property')
+ap.add_argument('--scratch', action='store_true')
 ap.add_argument('names', nargs='*')
 args = ap.parse_args()
+REPO = '/repo'
+ENV = dict(os.environ)
+if args.scratch:
+    import tempfile
+    REPO = tempfile.mkdtemp(prefix='seeded-wt-', dir='/tmp')
+    os.rmdir(REPO)
+    subprocess.run(['git', '-C', '/repo', 'worktree', 'add', '--detach', '-q',
+                    REPO, 'HEAD'], check=True)
+    OUTDIR = tempfile.mkdtemp(prefix='seeded-out-', dir='/tmp')
+    ENV['VERIF_REPO'] = REPO
+    ENV['VERIF_OUT'] = OUTDIR
+else:
+    OUTDIR = '/verif'
 dirs = sorted(glob.glob('/verif/seeded/*/'))
 if args.names:
     dirs = [d for d in dirs if os.path.basename(d.rstrip('/')) in args.names]
-if subprocess.run(['git', '-C', '/repo', 'status', '--porcelain', '-uno'],
+if subprocess.run(['git', '-C', REPO, 'status', '--porcelain', '-uno'],
                   capture_output=True, text=True).stdout.strip():
     sys.exit('/repo has local modifications; refusing to run')
 results = {}
@@ -34,7 +53,7 @@ for d in dirs:
     prop = meta['property']
     ids = ['C08', 'C09', 'C10', 'C12', 'C13', 'C17', 'C20'] \
         if args.all_checks else [prop]
-    r = subprocess.run(['git', '-C', '/repo', 'apply', d + 'patch.diff'],
+    r = subprocess.run(['git', '-C', REPO, 'apply', d + 'patch.diff'],
                        capture_output=True, text=True)
     if r.returncode != 0:
         print(name, 'PATCH DOES NOT APPLY', r.stderr[:200])
@@ -46,7 +65,7 @@ for d in dirs:
                 cmd += ['--runs', str(args.runs)]
             t0 = time.time()
             p = subprocess.run(cmd, capture_output=True, text=True,
-                               cwd='/verif')
+                               cwd='/verif', env=ENV)
             sigs = [ln.split(':')[0].replace('violation ', '')
                     for ln in p.stdout.split('\n')
                     if ln.startswith('violation ')]
@@ -54,8 +73,13 @@ for d in dirs:
             print('{:28s} {} exit={} {:5.0f}s {}'.format(
                 name, cid, p.returncode, time.time() - t0, sigs[:4]))
     finally:
-        subprocess.run(['git', '-C', '/repo', 'checkout', '--', '.'])
-        for f in glob.glob('/verif/replay/*.json'):
+        subprocess.run(['git', '-C', REPO, 'checkout', '--', '.'])
+        for f in glob.glob(OUTDIR + '/replay/*.json'):
             os.remove(f)
+if args.scratch:
+    import shutil
+    subprocess.run(['git', '-C', '/repo', 'worktree', 'remove', '--force',
+                    REPO])
+    shutil.rmtree(OUTDIR, ignore_errors=True)
 caught = sum(1 for (n, c), (rc, s) in results.items() if rc == 1)
 print('caught {} of {}'.format(caught, len(results)))
